@@ -547,6 +547,8 @@ static void v_death_token(const char *errline, int status, bool hang, char *out,
 		if (p)
 			sscanf(p + 18, "%63[a-zA-Z-]", kind);
 		snprintf(out, n, "asan:%s", kind);
+	} else if (strstr(errline, "ThreadSanitizer")) {
+		snprintf(out, n, "tsan:%s", strstr(errline, "data race") ? "data-race" : "report");
 	} else if (strstr(errline, "MemorySanitizer")) {
 		snprintf(out, n, "msan:use-of-uninitialized-value");
 	} else if (strstr(errline, "runtime error:")) {
